@@ -41,7 +41,7 @@ RULE = (
     "mode, dictionary); non-trivial = the dictionary selects an overload, a pre-set/default option or a template."
 )
 ASSUMPTIONS = ["graphs are built from importable module-level functions in explicit dataset(f) form; the decorator form is the recorded finding pickle-decorator-form-dataset"]
-FLOORS = {"warm_memo_roundtrips": (6, 18), "warm_memo_children": (6, 18), "wired_together_checks": (12, 12), "roundtrips": (120, 120), "originals_compared_with_pristine_interpreter": (120, 120), "outcomes_compared": (5000, 5000), "child_interpreters": (30, 90), "post_load_registrations": (36, 36), "post_dump_registrations_on_the_original": (36, 36),
+FLOORS = {"warm_memo_roundtrips": (6, 18), "warm_memo_children": (6, 18), "wired_together_checks": (12, 12), "roundtrips": (120, 120), "originals_compared_with_pristine_interpreter": (120, 120), "outcomes_compared": (5000, 5000), "child_interpreters": (30, 90), "post_load_registrations": (36, 36), "registrations_refused_alike": (60, 60), "post_dump_registrations_on_the_original": (36, 36),
           "unpickled_register_schedules": (150, 1500)}
 SHARDS_QUICK = 2
 SHARDS_THOROUGH = 4
@@ -187,7 +187,15 @@ def child_roundtrip(ctx, name, proto, blob, expected, hashseed):
 def post_load_usable(ctx, name, g2):
     """The copy accepts registration and evaluates it; the original does not change."""
     g = M.GRAPHS[name]
-    if not isinstance(g2, Dataset) or g2.overloads.dispatch == Value(labrea._missing.MISSING):
+    if not isinstance(g2, Dataset):
+        return
+    if g2.overloads.dispatch == Value(labrea._missing.MISSING):
+        # a dataset without a dispatch refuses overloads - and so does its copy (same failures, also for registration)
+        a = observe(lambda: g.overload("refused")(M.late_overload))
+        b = observe(lambda: g2.overload("refused")(M.late_overload))
+        ctx.count("registrations_refused_alike")
+        if a[:2] != b[:2]:
+            ctx.violation("copy-behaves-differently", f"{name}: overload() on a dataset without a dispatch gives {short(a)} on the original and {short(b)} on the unpickled copy", {"graph": name})
         return
     before = dict(g.overloads.lookup)
     try:
